@@ -144,7 +144,7 @@ func refPolicy(c *Case) (accept bool, reasons []string) {
 		no("integrity scheme does not match the version")
 	}
 	for _, kv := range c.ResHeaders {
-		if len(kv.Values) > 0 && inFold(uncached, kv.Name) {
+		if (len(kv.Values) > 0 || kv.NoValues > 0) && inFold(uncached, kv.Name) {
 			no("uncached/stateful response header " + kv.Name)
 		}
 	}
@@ -153,7 +153,7 @@ func refPolicy(c *Case) (accept bool, reasons []string) {
 			no("method " + c.Method)
 		}
 		for _, kv := range c.ReqHeaders {
-			if len(kv.Values) > 0 && inFold(statefulReq, kv.Name) {
+			if (len(kv.Values) > 0 || kv.NoValues > 0) && inFold(statefulReq, kv.Name) {
 				no("stateful request header " + kv.Name)
 			}
 		}
@@ -445,7 +445,10 @@ func fault(t *rapid.T, c *Case) {
 		name := randCase(rapid.SampledFrom(uncached).Draw(t, "banned"), t, "bcase")
 		// Raw: the map key is exactly this spelling (a header map filled by direct assignment, or read
 		// from another parser), not Go's canonical form
-		kv := gen.HeaderKV{Name: name, Values: []string{rapid.SampledFrom([]string{"x", "a=b", "close"}).Draw(t, "bval")}, Raw: rapid.Bool().Draw(t, "braw")}
+		kv := gen.HeaderKV{Name: name, Values: []string{rapid.SampledFrom([]string{"x", "a=b", "close", ""}).Draw(t, "bval")}, Raw: rapid.Bool().Draw(t, "braw")}
+		if rapid.IntRange(0, 5).Draw(t, "bnovalues") == 0 {
+			kv.NoValues = rapid.IntRange(1, 2).Draw(t, "bnv")
+		}
 		if rapid.IntRange(0, 2).Draw(t, "bfill") == 0 {
 			// among many harmless fields (more than there are banned names)
 			for i, n := 0, rapid.SampledFrom([]int{17, 18, 19, 20, 21, 40}).Draw(t, "bnfill"); i < n; i++ {
@@ -575,6 +578,18 @@ func TestGrid(t *testing.T) {
 					}
 				}
 			}
+		}
+		// a banned name present in the map with NO values (h[name] = nil / []string{}): the
+		// serializers emit it with an empty value, it is a header of the exchange
+		for _, nv := range []int{1, 2} {
+			for _, h := range []string{"Set-Cookie", "set-cookie", "Connection", "Strict-Transport-Security", "WWW-Authenticate"} {
+				ok = ok && try(func(c *Case) { c.ResHeaders = []gen.HeaderKV{{Name: "X-A", Values: []string{"1"}}, {Name: h, NoValues: nv, Raw: h[0] == 's'}} })
+			}
+			for _, h := range []string{"Cookie", "authorization"} {
+				ok = ok && try(func(c *Case) { c.ReqHeaders = []gen.HeaderKV{{Name: h, NoValues: nv, Raw: h[0] == 'a'}} })
+			}
+			// ... and a harmless name without values stays harmless
+			ok = ok && try(func(c *Case) { c.ResHeaders = []gen.HeaderKV{{Name: "X-Empty", NoValues: nv}} })
 		}
 		// response headers that merely look similar must not be refused
 		for _, h := range []string{"Cookie", "Authorization", "Set-Cookie3", "X-Set-Cookie", "Connections", "Trailers", "Keep-Alive2", "Upgrade-Insecure-Requests", "Sec-WebSocket-Key"} {
